@@ -265,6 +265,16 @@ pub struct FileRead {
 
 /// Open with the normal reader and read every listed file.
 pub fn read_all(bytes: &[u8], cfg: &Cfg) -> Result<BTreeMap<String, FileRead>, String> {
+    match std::panic::catch_unwind(std::panic::AssertUnwindSafe(|| read_all_inner(bytes, cfg))) {
+        Ok(x) => x,
+        Err(p) => {
+            let msg = p.downcast_ref::<String>().cloned().or_else(|| p.downcast_ref::<&str>().map(|s| s.to_string())).unwrap_or_default();
+            Err(format!("panic:{msg}"))
+        }
+    }
+}
+
+fn read_all_inner(bytes: &[u8], cfg: &Cfg) -> Result<BTreeMap<String, FileRead>, String> {
     let mut r = ArchiveReader::from_config(Cursor::new(bytes), cfg.reader_config()).map_err(|e| err_class(&e))?;
     let names: Vec<String> = r.list_files().map_err(|e| err_class(&e))?.cloned().collect();
     let mut out = BTreeMap::new();
@@ -449,10 +459,45 @@ pub fn peel(bytes: &[u8], cfg: &Cfg) -> Result<Vec<u8>, String> {
 // Repair through the real fail-safe reader
 
 pub struct Repaired {
+    /// status class in the model's vocabulary (`Stop.tag`, prefixed by `UnfinishedFiles:` if any)
     pub status: String,
+    pub unfinished: Vec<String>,
     pub out: Vec<u8>,
 }
+
+fn stop_tag(e: &mla::errors::FailSafeReadError) -> String {
+    use mla::errors::FailSafeReadError::*;
+    match e {
+        NoError => "NoError".into(),
+        UnexpectedEOFOnNextBlock => "UnexpectedEOFOnNextBlock".into(),
+        IOErrorOnNextBlock(err) => format!("ErrorOnNextBlock:{}", io_err_class(err)),
+        ErrorOnNextBlock(err) => format!("ErrorOnNextBlock:{}", err_class(err)),
+        ErrorInFile(_, _) => "ErrorInFile".into(),
+        ArchiveFileIDReuse(_) => "ArchiveFileIDReuse".into(),
+        FilenameReuse(_) => "FilenameReuse".into(),
+        ArchiveFileIDAlreadyClose(_) => "ArchiveFileIDAlreadyClose".into(),
+        ContentForUnknownFile(_) => "ContentForUnknownFile".into(),
+        EOFForUnknownFile(_) => "EOFForUnknownFile".into(),
+        UnfinishedFiles { stopping_error, .. } => format!("UnfinishedFiles:{}", stop_tag(stopping_error)),
+        EndOfOriginalArchiveData => "EndOfOriginalArchiveData".into(),
+        FailSafeReadInternalError => "FailSafeReadInternalError".into(),
+        HashDiffers { .. } => "HashDiffers".into(),
+    }
+}
+
+/// Repair through the real fail-safe reader. `Err("panic:…")` when the library panics.
 pub fn repair(bytes: &[u8], cfg: &Cfg, authenticated: bool) -> Result<Repaired, String> {
+    let r = std::panic::catch_unwind(std::panic::AssertUnwindSafe(|| repair_inner(bytes, cfg, authenticated)));
+    match r {
+        Ok(x) => x,
+        Err(p) => {
+            let msg = p.downcast_ref::<String>().cloned().or_else(|| p.downcast_ref::<&str>().map(|s| s.to_string())).unwrap_or_default();
+            Err(format!("panic:{msg}"))
+        }
+    }
+}
+
+fn repair_inner(bytes: &[u8], cfg: &Cfg, authenticated: bool) -> Result<Repaired, String> {
     let mut rc = cfg.reader_config();
     if authenticated {
         rc.failsafe_return_only_authenticated_data();
@@ -464,7 +509,19 @@ pub fn repair(bytes: &[u8], cfg: &Cfg, authenticated: bool) -> Result<Repaired, 
     let data = sink.data.clone();
     let mut out_w = ArchiveWriter::from_config(sink, ArchiveWriterConfig::new()).map_err(|e| err_class(&e))?;
     let status = fs.convert_to_archive(&mut out_w).map_err(|e| err_class(&e))?;
-    let s = format!("{status:?}");
+    let unfinished = match &status {
+        mla::errors::FailSafeReadError::UnfinishedFiles { filenames, .. } => {
+            let mut f = filenames.clone();
+            f.sort();
+            f
+        }
+        _ => vec![],
+    };
     let out = data.borrow().clone();
-    Ok(Repaired { status: s, out })
+    Ok(Repaired { status: stop_tag(&status), unfinished, out })
+}
+
+/// quiet panic hook (panics of the library under test are observations, not noise)
+pub fn quiet_panics() {
+    if std::env::var("VERIF_LOUD").is_err() { std::panic::set_hook(Box::new(|_| {})); }
 }
